@@ -12,6 +12,7 @@ import (
 	"os"
 	"runtime"
 	"strings"
+	"syscall"
 	"time"
 
 	"go.uber.org/thriftrw/plugin/api"
@@ -41,7 +42,7 @@ var Check = &ev.Check{
 	Rule: "base messages (<=64 bytes): struct-wrapped C02 depth-1/2 container values, valid plugin/api messages (HandshakeResponse, GenerateServiceRequest/Response, Service), the reference encodings (<=96 bytes) of the baseline and single-field deviations of every cell-universe type for the generated decoders, each bare, in a strict and a legacy envelope, and framed; " +
 		"fault = the 4 bytes at every offset (a superset of every position where the format carries a length/count) set to each of {2^16, 2^20+1, 2^24, 2^27, 2^28, 2^28+1, 2^29, 2^29+1, 2^30, 2^30+1, 2^31-1} (values above 2^24 only for (API, position kind) classes that stayed within bounds at 2^24, so that violating classes are found without killing the worker; 2^28..2^30 are where count*width wraps 32 bits); " +
 		"x 15 decoding APIs (Decode+force, Decode+wire.*ToSlice, Decode+EvaluateValue, ReadValue, primitive stream walk, Skip seek/stream, DecodeEnveloped, ReadEnvelopeBegin, DecodeRequest, ReadRequest, frame.Reader.Read, generated FromWire(Decode) and generated Decode for 4 plugin/api types). " +
-		"Wire-level messages additionally get 10 small negative values (-1..-16) in every window. Oracle per call: TotalAlloc delta <= 12 MiB + 64*N and reader calls <= 16 + 4*N. A case is (message, offset, magnitude); non-trivial = the mutated window overlaps a real length/count field of the reference encoding.",
+		"Wire-level messages additionally get 10 small negative values (-1..-16) in every window. Oracle per call: processor time <= 3 s (reported when the allocation bound holds), TotalAlloc delta <= 12 MiB + 64*N and reader calls <= 16 + 4*N. A case is (message, offset, magnitude); non-trivial = the mutated window overlaps a real length/count field of the reference encoding.",
 	Prepare: func(s *ev.S) error {
 		_, err := cells.Prepare(s, cells.Options{Slim: true})
 		return err
@@ -494,12 +495,32 @@ func apiClass(name string) string {
 func measure(a apiFn, msg []byte, ms *runtime.MemStats) (delta uint64, reads int, pan interface{}) {
 	runtime.ReadMemStats(ms)
 	before := ms.TotalAlloc
+	c0 := cpuSeconds()
 	func() {
 		defer func() { pan = recover() }()
 		reads = a.run(msg)
 	}()
+	lastCPU = cpuSeconds() - c0
 	runtime.ReadMemStats(ms)
 	return ms.TotalAlloc - before, reads, pan
+}
+
+// lastCPU is the processor time (user+system, this process; workers run with
+// GOMAXPROCS=1) the last measured call took. Work that never touches the reader
+// (a loop over a declared count that "skips" by arithmetic or by seeking) shows up
+// only here. The bound is three seconds for messages of a few dozen bytes, whose
+// decoding takes microseconds: processor time, not wall-clock time, so machine load
+// cannot produce it.
+var lastCPU float64
+
+const cpuBound = 3.0
+
+func cpuSeconds() float64 {
+	var ru syscall.Rusage
+	if syscall.Getrusage(syscall.RUSAGE_SELF, &ru) != nil {
+		return 0
+	}
+	return float64(ru.Utime.Sec) + float64(ru.Utime.Usec)/1e6 + float64(ru.Stime.Sec) + float64(ru.Stime.Usec)/1e6
 }
 
 // violCount counts violations per (api class, position kind) in this worker:
@@ -547,6 +568,13 @@ func one(w *ev.W, a apiFn, msg []byte, kind string, off int, mag uint32, ms *run
 		}
 	} else {
 		w.Outcome("within-bounds")
+	}
+	if lastCPU > cpuBound && delta <= allocK+allocC*n {
+		// (when the allocation bound is exceeded as well, the time went into that allocation: one defect, reported above)
+		bad[a.name+"|"+kind] = true
+		violCount[apiClass(a.name)+"|"+kind]++
+		w.Violation("cpu:api="+apiClass(a.name)+":pos="+kind, fmt.Sprintf("%s used %.1f s of processor time on a %d-byte message (bound %.0f s): 4 bytes at offset %d (%s) set to %d; msg=%s",
+			a.name, lastCPU, n, cpuBound, off, kind, mag, pl.Msg), pl)
 	}
 	if uint64(reads) > 16+4*n {
 		w.Violation("reads:api="+apiClass(a.name)+":pos="+kind, fmt.Sprintf("%s made %d reader calls for a %d-byte message; msg=%s", a.name, reads, n, pl.Msg), pl)
